@@ -35,6 +35,7 @@ import (
 	"github.com/inbucket/inbucket/v3/pkg/msghub"
 	"github.com/inbucket/inbucket/v3/pkg/rest"
 	"github.com/rs/zerolog"
+	"verifharness/asmsys"
 	"verifharness/vh"
 )
 
@@ -102,8 +103,10 @@ func (m *mock) call(e evt) error {
 	m.rec = append(m.rec, e)
 	return nil
 }
-func (m *mock) Receive(msg event.MessageMetadata) error { return m.call(evt{false, msg.Mailbox, msg.ID}) }
-func (m *mock) Delete(mailbox string, id string) error  { return m.call(evt{true, mailbox, id}) }
+func (m *mock) Receive(msg event.MessageMetadata) error {
+	return m.call(evt{false, msg.Mailbox, msg.ID})
+}
+func (m *mock) Delete(mailbox string, id string) error { return m.call(evt{true, mailbox, id}) }
 
 // gate parks the hub goroutine inside the broadcast of a message to gateMailbox.
 type gate struct {
@@ -392,6 +395,9 @@ func runHub(n int, ops []string) []string {
 }
 
 func exec(kind string, in []string) []string {
+	if asmsys.Is(kind) {
+		return asmsys.Exec(kind, in)
+	}
 	switch kind {
 	case "hub":
 		n, err := strconv.Atoi(in[0])
@@ -408,6 +414,9 @@ func exec(kind string, in []string) []string {
 }
 
 func main() {
+	if asmsys.ChildMain() {
+		return
+	}
 	zerolog.SetGlobalLevel(zerolog.Disabled)
 	if d := os.Getenv("VERIF_C15_DEADLINE_MS"); d != "" {
 		if v, err := strconv.Atoi(d); err == nil {
